@@ -1133,300 +1133,20 @@ class Gridder(GeospatialGrid):
         tuple[NDArray | None, ...],
         tuple[NDArray | None, ...],
     ]:
-        # does the same as cells_touched_by_trajectory but for
-        # both state and integrated variables
-
+        # Kept for backward compatibility: same result as grid_trajectory (which this
+        # method was refactored into), except that more than one dateline crossing
+        # returns None for all outputs.
         dateline_crossing = crosses_dateline(lons[:-1], lons[1:])
-        if np.any(dateline_crossing != 0):
-            if np.count_nonzero(dateline_crossing) > 1:
-                warnings.warn(
-                    "Trajectory crosses the dateline more than once, "
-                    "this isn't implemented, returning None for all outputs"
-                )
-                return None, None, None, None, None, None
+        if np.count_nonzero(dateline_crossing) > 1:
+            warnings.warn(
+                "Trajectory crosses the dateline more than once, "
+                "this isn't implemented, returning None for all outputs"
+            )
+            return None, None, None, None, None, None
 
-            dateline_crossing_idx = np.where(dateline_crossing != 0)[0][0]
-            dateline_crossing_sign = dateline_crossing[dateline_crossing_idx]
-
-            first_segment_length = great_circle_distance(
-                lats[dateline_crossing_idx],
-                lons[dateline_crossing_idx],
-                lats[dateline_crossing_idx],
-                np.pi if dateline_crossing_sign == -1 else -np.pi,
-            )
-
-            second_segment_length = great_circle_distance(
-                lats[dateline_crossing_idx],
-                -np.pi if dateline_crossing_sign == -1 else np.pi,
-                lats[dateline_crossing_idx + 1],
-                lons[dateline_crossing_idx + 1],
-            )
-
-            total_segment_length = first_segment_length + second_segment_length
-
-            lons_first_part = np.concatenate(
-                (
-                    lons[: dateline_crossing_idx + 1],
-                    np.array([np.pi if dateline_crossing_sign == -1 else -np.pi]),
-                )
-            )
-            lats_first_part = np.concatenate(
-                (
-                    lats[: dateline_crossing_idx + 1],
-                    np.array([lats[dateline_crossing_idx]]),
-                )
-            )
-            altitudes_first_part = (
-                np.concatenate(
-                    (
-                        altitudes[: dateline_crossing_idx + 1],
-                        np.array([altitudes[dateline_crossing_idx]]),
-                    )
-                )
-                if altitudes is not None
-                else None
-            )
-            times_first_part = (
-                np.concatenate(
-                    (
-                        times[: dateline_crossing_idx + 1],
-                        np.array([times[dateline_crossing_idx]]),
-                    )
-                )
-                if times is not None
-                else None
-            )
-
-            state_variables_first_parts = tuple(
-                np.concatenate(
-                    (
-                        variable[: dateline_crossing_idx + 1],
-                        np.array([variable[dateline_crossing_idx]]),
-                    )
-                )
-                for variable in state_variables
-            )
-
-            integrated_variables_first_parts = tuple(
-                np.concatenate(
-                    (
-                        variable[:dateline_crossing_idx],
-                        np.array(
-                            [
-                                variable[dateline_crossing_idx]
-                                * first_segment_length
-                                / total_segment_length
-                            ]
-                        ),
-                    )
-                )
-                for variable in integrated_variables
-            )
-
-            lons_second_part = np.concatenate(
-                (
-                    np.array([-np.pi if dateline_crossing_sign == -1 else np.pi]),
-                    lons[dateline_crossing_idx + 1 :],
-                )
-            )
-
-            lats_second_part = np.concatenate(
-                (
-                    np.array([lats[dateline_crossing_idx]]),
-                    lats[dateline_crossing_idx + 1 :],
-                )
-            )
-
-            altitudes_second_part = (
-                np.concatenate(
-                    (
-                        np.array([altitudes[dateline_crossing_idx]]),
-                        altitudes[dateline_crossing_idx + 1 :],
-                    )
-                )
-                if altitudes is not None
-                else None
-            )
-
-            times_second_part = (
-                np.concatenate(
-                    (
-                        np.array([times[dateline_crossing_idx]]),
-                        times[dateline_crossing_idx + 1 :],
-                    )
-                )
-                if times is not None
-                else None
-            )
-
-            state_variables_second_parts = tuple(
-                np.concatenate(
-                    (
-                        np.array([var[dateline_crossing_idx]]),
-                        var[dateline_crossing_idx + 1 :],
-                    )
-                )
-                for var in state_variables
-            )
-
-            integrated_variables_second_parts = tuple(
-                np.concatenate(
-                    (
-                        np.array(
-                            [
-                                var[dateline_crossing_idx]
-                                * second_segment_length
-                                / total_segment_length
-                            ]
-                        ),
-                        var[dateline_crossing_idx + 1 :],
-                    )
-                )
-                for var in integrated_variables
-            )
-
-            (
-                touched_cells_lat_indices_first_part,
-                touched_cells_lon_indices_first_part,
-                touched_cells_altitude_indices_first_part,
-                touched_cells_time_indices_first_part,
-                subsegment_state_variable_values_first_part,
-                subsegment_integrated_variable_values_first_part,
-            ) = self._cell_idxs_touched_by_trajectory_with_state_and_integrated_vars(
-                lats_first_part,
-                lons_first_part,
-                altitudes_first_part,
-                times_first_part,
-                state_variables_first_parts,
-                integrated_variables_first_parts,
-            )
-
-            touched_cells_lats_first_part = self.grid_latitudes[
-                touched_cells_lat_indices_first_part
-            ]
-            touched_cells_lons_first_part = self.grid_longitudes[
-                touched_cells_lon_indices_first_part
-            ]
-            touched_cells_altitudes_first_part = (
-                self.grid_altitudes[touched_cells_altitude_indices_first_part]
-                if altitudes_first_part is not None
-                else None
-            )
-            touched_cells_times_first_part = (
-                self.grid_times[touched_cells_time_indices_first_part]
-                if times_first_part is not None
-                else None
-            )
-
-            (
-                touched_cells_lat_indices_second_part,
-                touched_cells_lon_indices_second_part,
-                touched_cells_altitude_indices_second_part,
-                touched_cells_time_indices_second_part,
-                subsegment_state_variable_values_second_part,
-                subsegment_integrated_variable_values_second_part,
-            ) = self._cell_idxs_touched_by_trajectory_with_state_and_integrated_vars(
-                lats_second_part,
-                lons_second_part,
-                altitudes_second_part,
-                times_second_part,
-                state_variables_second_parts,
-                integrated_variables_second_parts,
-            )
-
-            touched_cells_lats_second_part = self.grid_latitudes[
-                touched_cells_lat_indices_second_part
-            ]
-            touched_cells_lons_second_part = self.grid_longitudes[
-                touched_cells_lon_indices_second_part
-            ]
-            touched_cells_altitudes_second_part = (
-                self.grid_altitudes[touched_cells_altitude_indices_second_part]
-                if altitudes_second_part is not None
-                else None
-            )
-            touched_cells_times_second_part = (
-                self.grid_times[touched_cells_time_indices_second_part]
-                if times_second_part is not None
-                else None
-            )
-
-            return (
-                np.concatenate(
-                    [touched_cells_lats_first_part, touched_cells_lats_second_part]
-                ),
-                np.concatenate(
-                    [touched_cells_lons_first_part, touched_cells_lons_second_part]
-                ),
-                (
-                    np.concatenate(
-                        [
-                            touched_cells_altitudes_first_part,
-                            touched_cells_altitudes_second_part,
-                        ]
-                    )
-                    if altitudes is not None
-                    else None
-                ),
-                (
-                    np.concatenate(
-                        [
-                            touched_cells_times_first_part,
-                            touched_cells_times_second_part,
-                        ]
-                    )
-                    if times is not None
-                    else None
-                ),
-                tuple(
-                    np.concatenate([first_part, second_part])
-                    for first_part, second_part in zip(
-                        subsegment_state_variable_values_first_part,
-                        subsegment_state_variable_values_second_part,
-                    )
-                ),
-                tuple(
-                    np.concatenate([first_part, second_part])
-                    for first_part, second_part in zip(
-                        subsegment_integrated_variable_values_first_part,
-                        subsegment_integrated_variable_values_second_part,
-                    )
-                ),
-            )
-
-        else:
-            (
-                touched_cells_lat_indices,
-                touched_cells_lon_indices,
-                touched_cells_altitude_indices,
-                touched_cells_time_indices,
-                state_variable_values,
-                integrated_variable_values,
-            ) = self._cell_idxs_touched_by_trajectory_with_state_and_integrated_vars(
-                lats, lons, altitudes, times, state_variables, integrated_variables
-            )
-
-            touched_cells_lats = self.grid_latitudes[touched_cells_lat_indices]
-            touched_cells_lons = self.grid_longitudes[touched_cells_lon_indices]
-            touched_cells_altitudes = (
-                self.grid_altitudes[touched_cells_altitude_indices]
-                if altitudes is not None
-                else None
-            )
-            touched_cells_times = (
-                self.grid_times[touched_cells_time_indices]
-                if times is not None
-                else None
-            )
-
-            return (
-                touched_cells_lats,
-                touched_cells_lons,
-                touched_cells_altitudes,
-                touched_cells_times,
-                state_variable_values,
-                integrated_variable_values,
-            )
+        return self.grid_trajectory(
+            lats, lons, altitudes, times, state_variables, integrated_variables
+        )
 
 
 def _cell_indices(grid: NDArray, values: NDArray) -> NDArray:
